@@ -366,6 +366,8 @@ def validate(unit=None, digits=('u64', 'u32', 'u16', 'u8'), modes=('dbg',)):
                 print('PROBLEM', d, m, p)
                 bad += 1
             for it in g.items:
+                if getattr(it, 'is_mp', False):
+                    continue  # derived must-panic dual: same tokens as its origin entry, which is validated itself
                 if it.kind in ('fn', 'const') and it.assumed and not it.identical:
                     # [assumed] entries carry `{ unimplemented!() }` instead of the real body: compare the signature only
                     E0, _ = split_ghost(lex(subst(it.entry.text, d)))
